@@ -1,3 +1,4 @@
+\* crash part as coded, one crash while block 2 is committed: the reachable graph is exported; the harness walks it to predict what a restart on each crash image shows
 SPECIFICATION Spec
 CONSTANTS
   MaxH = 2
@@ -12,7 +13,7 @@ CONSTANTS
   ReconcileUtxo = FALSE
   GuardBsPrune = FALSE
   WindowStPrune = FALSE
-INVARIANTS TypeOK
+INVARIANTS TypeOK NodeComesUp NothingAckedLost
 ACTION_CONSTRAINT Edge
 VIEW View
 CHECK_DEADLOCK FALSE
